@@ -69,6 +69,12 @@ CARRIERS = {
     "list_no_blank": (_t("text\n* a\n* b\ntext\n"), "list"),
     "list_ends_open_para": (_t("- item\n  continued"), "list"),
     "ol_10": (_t("10. x\n"), "list"),
+    # sibling sub-lists indented differently (MD005's fix path consults what it remembers of the
+    # enclosing levels - seeded change m13o: a map of ordered levels that survived the previous file)
+    "ul_sublists_uneven": (_t("# Nested\n\n- b\n  - c\n- d\n   - e\n"), "list"),
+    "ol_sublists_uneven": (_t("1. b\n   1. c\n1. d\n    1. e\n"), "list"),
+    "olul_sublists_uneven": (_t("1. b\n   - c\n1. d\n    - e\n"), "list"),
+    "ulol_sublists_uneven": (_t("- b\n  1. c\n- d\n   1. e\n"), "list"),
     # --- fences / code ---------------------------------------------------------
     "fence_open_eof": (_t("# T\n\n```text\ncode line\n"), "fence"),
     "fence_tilde": (_t("# T\n\n~~~text\ncode\n~~~\n"), "fence"),
